@@ -72,6 +72,10 @@ class Interp(object):
     def resolve(self, ctx, v):
         """Resolve an optional by branching."""
         while isinstance(v, VOpt):
+            if getattr(ctx, 'no_branch', 0):
+                # spec mode: total; the formula guards the None case itself
+                v = v.val
+                continue
             if ctx.branch(v.isnone):
                 return NONE
             v = v.val
